@@ -52,7 +52,10 @@ pub fn judge(rep: &mut Report, c: &Case) {
         if !ok {
             // attribution
             let mut cause = "other".to_string();
-            if amer { cause = "americanist-letter-in-input".into() }
+            // the americanist letters are to blame only if the same word typed with their IPA equivalents composes properly
+            let deamer = c.word.replace('¢', "t͡s").replace('ƛ', "t͡ɬ").replace('λ', "d͡ɮ").replace('ł', "ɬ").replace('ñ', "ɲ");
+            let amer_is_the_cause = amer && match (run1(&all, &deamer, &c.into), run1(&all[..k], &deamer, &c.into)) { (Ok(f2), Ok(m2)) => matches!(run1(&all[k..], &m2, &[]), Ok(s2) if s2 == f2), _ => false };
+            if amer_is_the_cause { cause = "americanist-letter-in-input".into() }
             else if let (Ok(w), Ok(pr)) = (parse_word_with(&c.word, &c.into), compile_groups(&all[..k])) {
                 let midw = if k == 0 { Some(w.clone()) } else { apply_all(&pr, &w).ok().and_then(|mut v| v.pop()) };
                 if let Some(mw) = midw {
